@@ -6,6 +6,9 @@ CONSTANTS
     Design = "temp"
     Policy = "validate"
     RenameAt = "closed"
+    Recover = FALSE
+    Forwards = TRUE
+    MaxDrop = 0
     LossyNames = FALSE
     Memo = FALSE
     MaxClear = 0
@@ -20,6 +23,8 @@ INVARIANT NoRaise
 INVARIANT RightResults
 INVARIANT Injective
 INVARIANT NoRecompute
+INVARIANT AllStored
+INVARIANT ComputesExactlyMissing
 INVARIANT FinalWhole
 INVARIANT OneOwner
 INVARIANT Emit
